@@ -4,6 +4,7 @@ package c06
 import (
 	"fmt"
 	"net/url"
+	"runtime"
 	"runtime/debug"
 	"strings"
 	"testing"
@@ -65,6 +66,23 @@ type Case struct {
 	Extras       bool              `json:"extras,omitempty"` // storage implements the *FromRequest / JWTProfileTokenStorage extras
 	Refresh      RefreshCfg        `json:"refresh"`
 	TE           TECfg             `json:"te"`
+	// Earlier: issuances that happened on the same provider (same process, same storage) before the flow under test, each judged
+	// like any other response; some of them fail because the storage supplied a custom claim encoding/json cannot encode.
+	Earlier []Earlier        `json:"earlier,omitempty"`
+	Other   *vkit.ClientSpec `json:"other,omitempty"` // a second registered client the earlier issuances may use
+	// Conc: the concurrent sub-check (TestConcurrent*): several workers drive their own flows on ONE provider at the same time.
+	Conc *Conc `json:"conc,omitempty"`
+}
+
+// Earlier is one earlier issuance.
+type Earlier struct {
+	Flow   string   `json:"flow"`   // code | implicit_id | implicit_id_token | device | client_credentials
+	Client string   `json:"client"` // main | other
+	User   string   `json:"user"`
+	Scopes []string `json:"scopes"`
+	Nonce  string   `json:"nonce,omitempty"`
+	Bad    string   `json:"bad,omitempty"`    // kind of unencodable value the storage supplies for the custom scope during this issuance ("" none)
+	BadAt  string   `json:"bad_at,omitempty"` // nested (inside the custom claim's object) | own (a claim of its own)
 }
 
 // ---- generators -----------------------------------------------------------------
@@ -298,7 +316,101 @@ func genCase(t *rapid.T) Case {
 			p.TE.DropScopes = []string{"email"}
 		}
 	}
+	if rapid.IntRange(0, 3).Draw(t, "earlier") == 3 {
+		genEarlier(t, &c)
+	}
 	return c
+}
+
+var earlierFlows = []string{"code", "code", "implicit_id", "implicit_id_token", "device", "client_credentials"}
+
+// genEarlier: 1-3 issuances that precede the flow under test on the same provider, for users / clients / scopes of their own;
+// about half of them are handed a custom claim that cannot be encoded (always followed by at least the flow under test).
+func genEarlier(t *rapid.T, c *Case) {
+	o := genClient(t, "o-", "other-client", "")
+	o.Service = true
+	c.Other = &o
+	n := rapid.IntRange(1, 3).Draw(t, "nearlier")
+	for i := 0; i < n; i++ {
+		var s Earlier
+		pre := fmt.Sprintf("e%d-", i)
+		s.Flow = rapid.SampledFrom(earlierFlows).Draw(t, pre+"flow")
+		s.Client = rapid.SampledFrom([]string{"other", "other", "main"}).Draw(t, pre+"client")
+		if !usable(&c.Client, s.Flow) {
+			s.Client = "other"
+		}
+		s.User = rapid.SampledFrom(vkit.AllUserIDs).Draw(t, pre+"user")
+		s.Scopes = []string{"openid"}
+		for _, sc := range []string{"profile", "email", "phone", "address", vkit.CustomScope} {
+			if rapid.IntRange(0, 2).Draw(t, pre+"sc-"+sc) > 0 {
+				s.Scopes = append(s.Scopes, sc)
+			}
+		}
+		s.Nonce = rapid.SampledFrom([]string{"", "earlier-nonce", "n2"}).Draw(t, pre+"nonce")
+		if strings.HasPrefix(s.Flow, "implicit") && s.Nonce == "" {
+			s.Nonce = "earlier-impl-nonce"
+		}
+		if rapid.Bool().Draw(t, pre+"bad") {
+			s.Bad = rapid.SampledFrom(badKinds).Draw(t, pre+"badkind")
+			s.BadAt = rapid.SampledFrom([]string{"nested", "own"}).Draw(t, pre+"badat")
+			if !has(s.Scopes, vkit.CustomScope) {
+				s.Scopes = append(s.Scopes, vkit.CustomScope)
+			}
+		}
+		c.Earlier = append(c.Earlier, s)
+	}
+}
+
+// genClient draws a client registration (all grants and response types) for flow ("" = any) under the label prefix pre.
+func genClient(t *rapid.T, pre, id, flow string) vkit.ClientSpec {
+	var cl vkit.ClientSpec
+	cl.ID = id
+	cl.Secret = "secret-" + id
+	cl.Keys = map[string]string{"ka": "rsa4"}
+	cl.RedirectURIs = []string{redirectURI}
+	cl.ResponseTypes = []string{"code", "id_token", "id_token token"}
+	cl.GrantTypes = []string{vkit.GCode, vkit.GImpl, vkit.GDevice, vkit.GCC, vkit.GBearer, vkit.GTE, vkit.GRefr}
+	cl.AllowedScopes = []string{vkit.CustomScope}
+	cl.JWTAccessToken = rapid.Bool().Draw(t, pre+"jwtat")
+	cl.ClockSkewS = rapid.SampledFrom([]int{0, 0, 1, 30, 300}).Draw(t, pre+"skew")
+	cl.IDTokenLifetimeS = rapid.SampledFrom([]int{0, 45, 500, 86400}).Draw(t, pre+"idtlife")
+	cl.UserinfoAssertion = rapid.IntRange(0, 2).Draw(t, pre+"assertion") > 0
+	switch rapid.IntRange(0, 7).Draw(t, pre+"drop") {
+	case 5:
+		cl.DropIDTokenScopes = []string{vkit.CustomScope}
+	case 6:
+		cl.DropIDTokenScopes = []string{"email", "phone"}
+	case 7:
+		cl.DropATScopes = []string{vkit.CustomScope}
+	}
+	cl.AppType, cl.AuthMethod = "web", "client_secret_basic"
+	switch flow {
+	case "":
+		// a client used with several grants (device and client_credentials among them): basic authentication
+	case "code", "refresh":
+		switch rapid.IntRange(0, 4).Draw(t, pre+"auth") {
+		case 1:
+			cl.AuthMethod = "client_secret_post"
+		case 2:
+			cl.AppType, cl.AuthMethod = "native", "none"
+		case 3:
+			cl.AuthMethod = "private_key_jwt"
+		}
+	case "implicit_id", "implicit_id_token":
+		if rapid.Bool().Draw(t, pre+"ua") {
+			cl.AppType, cl.AuthMethod = "user_agent", "none"
+		}
+	case "device":
+		if rapid.Bool().Draw(t, pre+"native") {
+			cl.AppType, cl.AuthMethod = "native", "none"
+		}
+	case "client_credentials":
+		cl.Service = true
+		if rapid.Bool().Draw(t, pre+"post") {
+			cl.AuthMethod = "client_secret_post"
+		}
+	}
+	return cl
 }
 
 // ---- execution --------------------------------------------------------------------
@@ -337,6 +449,12 @@ type env struct {
 	armed  bool             // the roll-over of the case has been handed to the storage
 	slow   bool
 	nIss   int
+	other  *vkit.ClientSpec
+	hook   *claimHook
+	nonce  string // nonce / state of the authorization requests being driven
+	state  string
+	bad    string // != "": the storage supplies an unencodable custom claim during the current issuance
+	note   string // appended to the step name of issuances (position in a sequence / worker)
 }
 
 func (e *env) issuerOf(a *vkit.Agent) string {
@@ -368,8 +486,8 @@ func (e *env) checkResp(step string, r *vkit.Resp) bool {
 }
 
 // authorize drives authorize -> login -> callback for client cl. authorize runs on agent a0, the callback on a1.
-func (e *env) authorize(step string, a0, a1 *vkit.Agent, cl *vkit.ClientSpec, responseType string, scopes []string, user, verifier string) (params url.Values, ar vkit.AuthReq, t0, t1 time.Time, ok bool) {
-	q := vkit.AuthParams(cl, redirectURI, responseType, strings.Join(scopes, " "), e.c.State, e.c.Nonce)
+func (e *env) authorize(step string, mainStep bool, a0, a1 *vkit.Agent, cl *vkit.ClientSpec, responseType string, scopes []string, user, verifier string) (params url.Values, ar vkit.AuthReq, t0, t1 time.Time, ok bool) {
+	q := vkit.AuthParams(cl, redirectURI, responseType, strings.Join(scopes, " "), e.state, e.nonce)
 	if verifier != "" {
 		q.Set("code_challenge", vkit.S256(verifier))
 		q.Set("code_challenge_method", "S256")
@@ -388,7 +506,7 @@ func (e *env) authorize(step string, a0, a1 *vkit.Agent, cl *vkit.ClientSpec, re
 	}
 	e.st.Login(id, user)
 	ar, _ = e.st.AuthReqSnapshot(id)
-	e.rotate(responseType != "code")
+	e.rotate(mainStep && responseType != "code")
 	t0 = time.Now()
 	cb := a1.Callback(id)
 	t1 = time.Now()
@@ -473,7 +591,7 @@ func (e *env) codeFlow(step string, mainStep bool, a0, a1 *vkit.Agent, cl *vkit.
 	if cl.AuthMethod == "none" {
 		verifier = pkceVerifier
 	}
-	params, ar, _, _, ok := e.authorize(step, a0, a0, cl, "code", scopes, user, verifier)
+	params, ar, _, _, ok := e.authorize(step, false, a0, a0, cl, "code", scopes, user, verifier)
 	if !ok {
 		return nil, false
 	}
@@ -490,7 +608,9 @@ func (e *env) codeFlow(step string, mainStep bool, a0, a1 *vkit.Agent, cl *vkit.
 		return nil, false
 	}
 	if !r.Success() || r.JSON() == nil {
-		e.fail("C06:flow-incomplete:"+step+":token", "%s: code exchange refused: %s", step, r.Describe())
+		if !e.refused(step, r) {
+			e.fail("C06:flow-incomplete:"+step+":token", "%s: code exchange refused: %s", step, r.Describe())
+		}
 		return nil, false
 	}
 	is := e.newIssuance(step, mainStep, "code", a1, cl, t0, t1, fromJSON(r.JSON()))
@@ -509,30 +629,29 @@ func (is *issuance) fromAuthReq(ar vkit.AuthReq) {
 	is.ReqAudience = append([]string{ar.ClientID}, ar.ExtraAudience...)
 }
 
-func run(c Case) (res *vkit.Result) {
-	res = &vkit.Result{}
-	defer func() {
-		if p := recover(); p != nil {
-			res.Fail("C06:panic@"+vkit.FirstLibFrame(string(debug.Stack())), "panic outside a request: %v\n%s", p, debug.Stack())
-		}
-	}()
-	cl := c.Client
-	helper := &vkit.ClientSpec{ID: "helper", Secret: "secret-h", AppType: "web", AuthMethod: "client_secret_basic",
+func newHelper() *vkit.ClientSpec {
+	return &vkit.ClientSpec{ID: "helper", Secret: "secret-h", AppType: "web", AuthMethod: "client_secret_basic",
 		GrantTypes: []string{vkit.GCode, vkit.GRefr}, ResponseTypes: []string{"code"}, RedirectURIs: []string{redirectURI},
 		JWTAccessToken: true, AllowedScopes: []string{vkit.CustomScope}, ClockSkewS: 1, IDTokenLifetimeS: 500}
-	st := vkit.NewStore([]*vkit.ClientSpec{&cl, helper}, c.Sign, c.Policy)
+}
+
+// buildProvider: one storage with the given clients behind one provider (the storage is wrapped by the claim hook).
+func buildProvider(c Case, clients []*vkit.ClientSpec, hook *claimHook) (*vkit.Store, *vkit.SUT, error) {
+	st := vkit.NewStore(clients, c.Sign, c.Policy)
 	st.PubKeys = append(st.PubKeys, c.OldKeys...)
 	spec := vkit.DefaultProviderSpec(c.Router)
 	spec.IssuerMode, spec.Issuer, spec.Insecure = c.Issuer.Mode, c.Issuer.Value, c.Issuer.Insecure
 	spec.CryptoKey = c.CryptoKey
 	spec.Caps = vkit.Caps{CC: true, TE: true, Device: true, Extras: c.Extras}
+	spec.WrapStorage = hook.wrapStorage
 	sut, err := vkit.Build(spec, st)
-	if err != nil {
-		res.Fail("C06:harness-build", "provider could not be built from a valid spec: %v", err)
-		return res
-	}
-	e := &env{c: c, res: res, st: st, sut: sut, cl: &cl, helper: helper, key: providerKey(c.CryptoKey), sign: c.Sign}
-	e.applyUse()
+	return st, sut, err
+}
+
+// newEnv: the driver of one sequence of flows (case c: client cl, its user / scopes / nonce) on a provider.
+func newEnv(c Case, res *vkit.Result, st *vkit.Store, sut *vkit.SUT, cl, helper, other *vkit.ClientSpec, hook *claimHook) *env {
+	e := &env{c: c, res: res, st: st, sut: sut, cl: cl, helper: helper, other: other, hook: hook, key: providerKey(c.CryptoKey), sign: c.Sign,
+		nonce: c.Nonce, state: c.State}
 	e.main = vkit.NewAgent(sut)
 	e.main.Host, e.main.Forwarded = c.Issuer.Host, c.Issuer.Forwarded
 	e.pre = vkit.NewAgent(sut)
@@ -540,7 +659,123 @@ func run(c Case) (res *vkit.Result) {
 	if c.Issuer.PreHost != "" {
 		e.pre.Host = c.Issuer.PreHost
 	}
+	return e
+}
 
+// refused: the issuing request of the current step was refused. Reports whether that is the expected outcome (the storage
+// supplied an unencodable claim to this very issuance: no token can be built from it).
+func (e *env) refused(step string, r *vkit.Resp) bool {
+	if e.bad == "" || e.hook.reached() == 0 {
+		return false
+	}
+	e.res.Label("unencodable-claim:refused", "unencodable-claim:refused:"+e.bad)
+	return true
+}
+
+func (e *env) implicitFlow(step string, mainStep bool, a0, a1 *vkit.Agent, cl *vkit.ClientSpec, flow string, scopes []string, user string) []*issuance {
+	rt := "id_token"
+	if flow == "implicit_id_token" {
+		rt = "id_token token"
+	}
+	params, ar, t0, t1, ok := e.authorize(step, mainStep, a0, a1, cl, rt, scopes, user, "")
+	if !ok {
+		return nil
+	}
+	if params.Get("error") != "" && params.Get("id_token") == "" && params.Get("access_token") == "" && e.refused(step, nil) {
+		return nil
+	}
+	is := e.newIssuance(step, mainStep, flow, a1, cl, t0, t1, fromParams(params))
+	is.fromAuthReq(ar)
+	is.Fragment = true
+	e.judge(is)
+	return []*issuance{is}
+}
+
+func (e *env) ccFlow(step string, mainStep bool, a *vkit.Agent, cl *vkit.ClientSpec, scopes []string) []*issuance {
+	e.rotate(mainStep)
+	t0 := time.Now()
+	r := a.Token(url.Values{"grant_type": {vkit.GCC}, "scope": {strings.Join(scopes, " ")}}, e.cred(a, cl))
+	t1 := time.Now()
+	if !e.checkResp(step, r) {
+		return nil
+	}
+	if !r.Success() || r.JSON() == nil {
+		if !e.refused(step, r) {
+			e.fail("C06:flow-incomplete:"+step, "client_credentials refused: %s", r.Describe())
+		}
+		return nil
+	}
+	is := e.newIssuance(step, mainStep, "client_credentials", a, cl, t0, t1, fromJSON(r.JSON()))
+	is.Sub, is.Granted, is.ReqAudience = cl.ID, scopes, []string{cl.ID}
+	e.judge(is)
+	return []*issuance{is}
+}
+
+// usable: the registrations with which the sequential check drives each flow (other combinations are refused by the
+// library for reasons that are not this property's: e.g. the device token endpoint authenticates by basic auth only).
+func usable(cl *vkit.ClientSpec, flow string) bool {
+	switch flow {
+	case "code":
+		return cl.AppType != "user_agent"
+	case "implicit_id", "implicit_id_token":
+		return cl.AppType != "native"
+	case "device":
+		return cl.AuthMethod == "client_secret_basic" || (cl.AppType == "native" && cl.AuthMethod == "none")
+	case "client_credentials":
+		return cl.Service && (cl.AuthMethod == "client_secret_basic" || cl.AuthMethod == "client_secret_post")
+	}
+	return false
+}
+
+// earlier drives one earlier issuance of the case.
+func (e *env) earlier(i int, s Earlier) {
+	cl := e.cl
+	if (s.Client == "other" || !usable(cl, s.Flow)) && e.other != nil {
+		cl = e.other
+	}
+	if !usable(cl, s.Flow) {
+		e.res.Label("earlier:skipped:client-unfit")
+		return
+	}
+	step := "earlier:" + s.Flow
+	nonce, state, note := e.nonce, e.state, e.note
+	e.nonce, e.state, e.note = s.Nonce, "", fmt.Sprintf("#%d", i+1)
+	defer func() { e.nonce, e.state, e.note = nonce, state, note }()
+	if s.Bad != "" {
+		e.bad = s.Bad
+		e.hook.arm(s.Bad, s.BadAt)
+		defer func() {
+			e.bad = ""
+			if e.hook.disarm() == 0 {
+				// the custom scope never reached the storage during this issuance (not requested / removed by the client's restrictions)
+				e.res.Label("unencodable-claim:not-reached")
+			}
+		}()
+	}
+	n0 := e.nIss
+	switch s.Flow {
+	case "code":
+		e.codeFlow(step, false, e.pre, e.pre, cl, s.Scopes, s.User)
+	case "implicit_id", "implicit_id_token":
+		e.implicitFlow(step, false, e.pre, e.pre, cl, s.Flow, s.Scopes, s.User)
+	case "device":
+		e.deviceFlow(step, false, e.pre, e.pre, cl, s.Scopes, s.User)
+	case "client_credentials":
+		e.ccFlow(step, false, e.pre, cl, s.Scopes)
+	}
+	e.res.Label("earlier:" + s.Flow)
+	if s.Bad != "" && e.nIss > n0 {
+		if e.hook.reached() > 0 {
+			e.res.Label("unencodable-claim:issued-anyway")
+		}
+	} else if s.Bad == "" && e.nIss > n0 {
+		e.res.Label("earlier:judged")
+	}
+}
+
+// runFlow drives the flow of the case for its client / user / scopes and returns the judged responses.
+func (e *env) runFlow() []*issuance {
+	c, cl := e.c, e.cl
 	var all []*issuance
 	switch c.Flow {
 	case "code":
@@ -548,37 +783,13 @@ func run(c Case) (res *vkit.Result) {
 			all = append(all, is)
 		}
 	case "implicit_id", "implicit_id_token":
-		rt := "id_token"
-		if c.Flow == "implicit_id_token" {
-			rt = "id_token token"
-		}
-		params, ar, t0, t1, ok := e.authorize("implicit", e.pre, e.main, e.cl, rt, c.Scopes, c.User, "")
-		if ok {
-			is := e.newIssuance("implicit", true, c.Flow, e.main, e.cl, t0, t1, fromParams(params))
-			is.fromAuthReq(ar)
-			is.Fragment = true
-			e.judge(is)
-			all = append(all, is)
-		}
+		all = e.implicitFlow("implicit", true, e.pre, e.main, e.cl, c.Flow, c.Scopes, c.User)
 	case "refresh":
 		all = e.refreshFlow()
 	case "device":
-		all = e.deviceFlow()
+		all = e.deviceFlow("device", true, e.pre, e.main, e.cl, c.Scopes, c.User)
 	case "client_credentials":
-		e.rotate(true)
-		t0 := time.Now()
-		r := e.main.Token(url.Values{"grant_type": {vkit.GCC}, "scope": {strings.Join(c.Scopes, " ")}}, e.cred(e.main, e.cl))
-		t1 := time.Now()
-		if e.checkResp("cc", r) {
-			if !r.Success() || r.JSON() == nil {
-				e.fail("C06:flow-incomplete:cc", "client_credentials refused: %s", r.Describe())
-			} else {
-				is := e.newIssuance("cc", true, "client_credentials", e.main, e.cl, t0, t1, fromJSON(r.JSON()))
-				is.Sub, is.Granted, is.ReqAudience = cl.ID, c.Scopes, []string{cl.ID}
-				e.judge(is)
-				all = append(all, is)
-			}
-		}
+		all = e.ccFlow("cc", true, e.main, e.cl, c.Scopes)
 	case "jwt_bearer":
 		now := time.Now()
 		assertion := vkit.AssertionWith(cl.ID, cl.ID, []string{e.issuerOf(e.main)}, "ka", cl.Keys["ka"], now.Add(-5*time.Second), now.Add(5*time.Minute), nil)
@@ -609,16 +820,64 @@ func run(c Case) (res *vkit.Result) {
 	case "exchange":
 		all = e.exchangeFlow()
 	}
-
 	mainSeen := false
 	for _, is := range all {
 		if is.Main {
 			mainSeen = true
 		}
 	}
-	if !mainSeen && len(res.Viol) == 0 && !e.slow {
-		res.Fail("C06:flow-incomplete:"+c.Flow, "flow %s produced no token response and no diagnosis", c.Flow)
+	if !mainSeen && len(e.res.Viol) == 0 && !e.slow {
+		e.res.Fail("C06:flow-incomplete:"+c.Flow, "flow %s produced no token response and no diagnosis", c.Flow)
 	}
+	return all
+}
+
+func run(c Case) (res *vkit.Result) {
+	if c.Conc != nil {
+		return runConc(c)
+	}
+	res = &vkit.Result{}
+	defer func() {
+		if p := recover(); p != nil {
+			res.Fail("C06:panic@"+vkit.FirstLibFrame(string(debug.Stack())), "panic outside a request: %v\n%s", p, debug.Stack())
+		}
+	}()
+	cl := c.Client
+	helper := newHelper()
+	clients := []*vkit.ClientSpec{&cl, helper}
+	var other *vkit.ClientSpec
+	if c.Other != nil && c.Other.ID != cl.ID && c.Other.ID != helper.ID {
+		o := *c.Other
+		other = &o
+		clients = append(clients, other)
+	}
+	hook := &claimHook{}
+	st, sut, err := buildProvider(c, clients, hook)
+	if err != nil {
+		res.Fail("C06:harness-build", "provider could not be built from a valid spec: %v", err)
+		return res
+	}
+	e := newEnv(c, res, st, sut, &cl, helper, other, hook)
+	e.applyUse()
+
+	// hygiene between cases: when a case with a refused (unencodable-claim) issuance FAILS, whatever that issuance left behind
+	// in the runtime's pools (sync.Pool is emptied by two collections) must not make the shrinker's next candidates fail by
+	// itself - inside this case it is exactly what the later responses are judged for. Costs nothing while the property holds.
+	hadBad := false
+	defer func() {
+		if hadBad && len(res.Viol) > 0 {
+			runtime.GC()
+			runtime.GC()
+		}
+	}()
+	for i, s := range c.Earlier {
+		if i >= 6 {
+			break
+		}
+		hadBad = hadBad || s.Bad != ""
+		e.earlier(i, s)
+	}
+	all := e.runFlow()
 
 	at := "opaque"
 	if cl.JWTAccessToken {
@@ -693,6 +952,12 @@ func rollKey(c Case) string {
 	if c.UseMode != "" {
 		out += "|use=" + c.UseMode
 	}
+	for i, s := range c.Earlier {
+		if i == 0 {
+			out += "|earlier="
+		}
+		out += fmt.Sprintf("%s/%s/%s/%s%s;", s.Flow, s.Client, strings.Join(s.Scopes, ","), s.Bad, s.BadAt)
+	}
 	return out
 }
 
@@ -761,27 +1026,26 @@ func (e *env) refreshFlow() []*issuance {
 	return all
 }
 
-func (e *env) deviceFlow() []*issuance {
-	c := e.c
-	r := e.pre.DeviceAuthorize(strings.Join(c.Scopes, " "), e.cred(e.pre, e.cl))
-	if !e.checkResp("device:authorize", r) {
+func (e *env) deviceFlow(step string, mainStep bool, a0, a1 *vkit.Agent, cl *vkit.ClientSpec, scopes []string, user string) []*issuance {
+	r := a0.DeviceAuthorize(strings.Join(scopes, " "), e.cred(a0, cl))
+	if !e.checkResp(step+":authorize", r) {
 		return nil
 	}
 	dc := r.Str("device_code")
 	if !r.Success() || dc == "" {
-		e.fail("C06:flow-incomplete:device:authorize", "device authorization refused: %s", r.Describe())
+		e.fail("C06:flow-incomplete:"+step+":authorize", "device authorization refused: %s", r.Describe())
 		return nil
 	}
-	if !e.st.ApproveDevice(dc, c.User) {
-		e.fail("C06:flow-incomplete:device:authorize", "device code %q unknown to the storage", dc)
+	if !e.st.ApproveDevice(dc, user) {
+		e.fail("C06:flow-incomplete:"+step+":authorize", "device code %q unknown to the storage", dc)
 		return nil
 	}
 	state, _, _ := e.st.DeviceSnapshot(dc)
-	e.rotate(true)
+	e.rotate(mainStep)
 	t0 := time.Now()
-	tr := e.main.Token(url.Values{"grant_type": {vkit.GDevice}, "device_code": {dc}}, e.cred(e.main, e.cl))
+	tr := a1.Token(url.Values{"grant_type": {vkit.GDevice}, "device_code": {dc}}, e.cred(a1, cl))
 	t1 := time.Now()
-	if !e.checkResp("device:token", tr) {
+	if !e.checkResp(step+":token", tr) {
 		return nil
 	}
 	if !tr.Success() && t1.Sub(t0) > time.Second {
@@ -791,15 +1055,17 @@ func (e *env) deviceFlow() []*issuance {
 		return nil
 	}
 	if !tr.Success() || tr.JSON() == nil {
-		e.fail("C06:flow-incomplete:device:token", "device token request refused: %s", tr.Describe())
+		if !e.refused(step, tr) {
+			e.fail("C06:flow-incomplete:"+step+":token", "device token request refused: %s", tr.Describe())
+		}
 		return nil
 	}
-	is := e.newIssuance("device", true, "device", e.main, e.cl, t0, t1, fromJSON(tr.JSON()))
-	is.Sub = c.User
+	is := e.newIssuance(step, mainStep, "device", a1, cl, t0, t1, fromJSON(tr.JSON()))
+	is.Sub = user
 	is.AuthTime = state.AuthTime.Unix()
 	is.AMR = state.AMR
 	is.Granted = state.Scopes
-	is.ReqAudience = []string{e.cl.ID}
+	is.ReqAudience = []string{cl.ID}
 	e.judge(is)
 	return []*issuance{is}
 }
@@ -906,6 +1172,9 @@ var prop = vkit.Prop[Case]{
 		"x access token type (opaque/JWT) x 8 signing key kinds (+0-2 rotated-out published keys; optional rotation to another key of the same algorithm right before the response under test, or a roll-over to a key of any of the 8 kinds that the storage performs by itself after 0-6 further reads of its signing key, i.e. before / between / after the key reads of one response or in a later response of the flow: every token must be self-consistent (header, signature, at_hash / c_hash hash function) under ONE of the keys in force during that response and verify over /keys) x `use` member of the published keys (all 'sig' / absent on all / absent on the signing keys / absent on the rotated-out keys) x client clock skew {0,1,30,300 s} x id-token lifetime x access-token TTL x scope set (with/without openid, custom scope) x userinfo-assertion flag " +
 		"x client scope restrictions x extra audience x issuer strategy (static/host/forwarded, split hosts, Forwarded header forms) x provider crypto key x router x client auth method; every token of every response of the flow " +
 		"(preparatory ones included) is verified with rp.VerifyTokens / op.VerifyAccessToken over the provider's /keys endpoint and /userinfo, and re-derived independently (crypto/* signature, at_hash, c_hash, AES-CFB unsealing, claims vs. the storage's ground truth, time brackets with a 2 s guard). " +
+		"In a quarter of the cases 1-3 EARLIER issuances (code / implicit / device / client_credentials, for users, scope sets, nonces and a second client of their own) run on the same provider and storage before the flow under test and are judged alike; " +
+		"during about half of them the storage supplies a custom claim of the custom scope that encoding/json cannot encode (NaN, +Inf, chan, func, map[any]any, failing Marshaler, complex; inside the custom claim's object or as a claim of its own; " +
+		"in the private claims of JWT access tokens and in the userinfo claims of id tokens): such an issuance may be refused (nothing asserted about it), every LATER response of the case must still carry only what belongs to its own request. " +
 		"Excluded: opaque subject tokens and requested_token_type=jwt in token exchange (crash / empty token: findings of C09/C15), form_post delivery (C11). " +
 		"non-trivial = non-RS256 key, or skew>0, or JWT access token, or non-code flow; distinct = product cell",
 	Gen: genCase,
